@@ -369,12 +369,17 @@ func VHSelfClosingTrim() {
 	vReach("selfclosing")
 }
 
-// VHReplacement: select / plural / ordinal / nomarkup are replaced by the text their definition prescribes.
+// VHReplacement: select / plural / ordinal / nomarkup are replaced by the text their definition prescribes;
+// the replacement text may hold multi-byte characters, and a marker that follows it is still positioned
+// in characters of the resulting text.
 func VHReplacement() {
 	lp := LineParser{}
 	c := vByte("c")
 	vAssume(vAnd(c >= 'a', c <= 'z'))
 	x := string([]byte{c})
+	ub := vByte("u")
+	vAssume(vAnd(ub >= 0xa1, ub <= 0xbf))
+	u := string([]byte{0xc3, ub}) // one two-byte character (U+00E1..U+00FF)
 	closeByName := vChoose("closeform", 2) == 1 // self-closing, or open ... closed by name
 	fin := func(name string) string {
 		if closeByName {
@@ -382,44 +387,55 @@ func VHReplacement() {
 		}
 		return "/]"
 	}
+	tail := "z[b]" + x + u + "[/b]."
+	// checkTail: the text is want+tail's plain text and the attribute b encloses exactly x+u
+	checkTail := func(res *ParseResult, want string, what string) {
+		vAssert(res.Text == want+"z"+x+u+".", what)
+		b, ok := res.Attribute("b")
+		vAssert(ok, "the marker after a replacement marker yields its attribute")
+		if ok {
+			vAssert(b.Position == utf8.RuneCountInString(want)+1 && b.Length == 2, "a marker after replaced text is positioned in characters of the resulting text")
+			vAssert(res.TextForAttribute(b) == x+u, "TextForAttribute after replaced text")
+		}
+	}
 	switch vChoose("marker", 4) {
 	case 0: // select
 		which := vChoose("value", 2)
 		val := []string{"m", "f"}[which]
-		line := "k[select value=" + val + " m=\"" + x + "%\" f=\"F\"" + fin("select") + "z"
+		line := "k[select value=" + val + " m=\"" + x + u + "%\" f=\"F\"" + fin("select") + tail
 		res, err := lp.ParseMarkup(line)
 		vAssert(err == nil, "select parses")
 		if err == nil {
-			want := "k" + x + "m" + "z"
+			want := "k" + x + u + "m"
 			if which == 1 {
-				want = "kFz"
+				want = "kF"
 			}
-			vAssert(res.Text == want, "select is replaced by the case named by its value, % standing for the value")
+			checkTail(res, want, "select is replaced by the case named by its value, % standing for the value")
 			vReach("select")
 		}
 	case 1: // plural
 		d := vByte("d")
 		vAssume(vDigit(d))
-		line := "k[plural value=" + string([]byte{d}) + " one=\"%" + x + "\" other=\"%s\"" + fin("plural") + "z"
+		line := "k[plural value=" + string([]byte{d}) + " one=\"%" + x + u + "\" other=\"%s\"" + fin("plural") + tail
 		res, err := lp.ParseMarkup(line)
 		vAssert(err == nil, "plural parses")
 		if err == nil {
-			want := "k" + string([]byte{d}) + "sz"
+			want := "k" + string([]byte{d}) + "s"
 			if d == '1' {
-				want = "k1" + x + "z"
+				want = "k1" + x + u
 			}
-			vAssert(res.Text == want, "plural picks `one` exactly for 1")
+			checkTail(res, want, "plural picks `one` exactly for 1")
 			vReach("plural")
 		}
 	case 2: // ordinal
 		d1, d0 := vByte("d1"), vByte("d0")
 		vAssume(vAnd(vAnd(d1 >= '1', d1 <= '9'), vDigit(d0)))
 		n := int(d1-'0')*10 + int(d0-'0')
-		line := "k[ordinal value=" + string([]byte{d1, d0}) + " one=\"%st\" two=\"%nd\" few=\"%rd\" other=\"%th\"" + fin("ordinal") + "z"
+		line := "k[ordinal value=" + string([]byte{d1, d0}) + " one=\"%st\" two=\"%nd\" few=\"%rd\" other=\"%" + u + "\"" + fin("ordinal") + tail
 		res, err := lp.ParseMarkup(line)
 		vAssert(err == nil, "ordinal parses")
 		if err == nil {
-			suffix := "th"
+			suffix := u
 			switch {
 			case n%10 == 1 && n != 11:
 				suffix = "st"
@@ -428,16 +444,16 @@ func VHReplacement() {
 			case n%10 == 3 && n != 13:
 				suffix = "rd"
 			}
-			vAssert(res.Text == "k"+string([]byte{d1, d0})+suffix+"z", "ordinal picks the English ordinal case")
+			checkTail(res, "k"+string([]byte{d1, d0})+suffix, "ordinal picks the English ordinal case")
 			vReach("ordinal")
 		}
 	case 3: // nomarkup: the enclosed text is taken verbatim
 		vAssume(closeByName)
-		line := "k[nomarkup][" + x + "] \\[[/nomarkup]z"
+		line := "k[nomarkup][" + x + u + "] \\[[/nomarkup]" + tail
 		res, err := lp.ParseMarkup(line)
 		vAssert(err == nil, "nomarkup closed by name parses")
 		if err == nil {
-			vAssert(res.Text == "k["+x+"] \\[z", "nomarkup keeps the enclosed text verbatim")
+			checkTail(res, "k["+x+u+"] \\[", "nomarkup keeps the enclosed text verbatim")
 			vReach("nomarkup")
 		}
 	}
